@@ -5836,7 +5836,7 @@ class Path(Shape, MutableSequence):
                         "Object not PathSegment when instantiating a Path: %s"
                         % segment.__class__.__name__
                     )
-            self._segments.extend(args)
+            self._segments.extend(map(copy, args))
         else:
             s = args[0]
             if isinstance(s, Subpath):
@@ -5849,14 +5849,14 @@ class Path(Shape, MutableSequence):
                 self.parse(s)
             elif isinstance(s, tuple):
                 # We have no guarantee of the validity of the source data
-                self._segments.extend(s)
+                self._segments.extend(map(copy, s))
                 self.validate_connections()
             elif isinstance(s, list):
                 # We have no guarantee of the validity of the source data
-                self._segments.extend(s)
+                self._segments.extend(map(copy, s))
                 self.validate_connections()
             elif isinstance(s, PathSegment):
-                self._segments.append(s)
+                self._segments.append(copy(s))
         if SVG_ATTR_DATA in self.values:
             # Not sure what the purpose of pathd_loaded is.
             # It is only set and checked here, and you cannot have "d" attribute more than once anyway
